@@ -1759,4 +1759,136 @@ theorem getElem?_refMaps (N Z : List (κ × Nat)) (r : Nat) (hr : r < rowCount N
 
 end RowForm
 
+section Fail
+variable {κ ν : Type} [DecidableEq κ]
+
+omit [DecidableEq κ] in
+theorem optAll_none_of_mem {α : Type} (l : List (Option α)) (h : none ∈ l) : optAll l = none := by
+  induction l with
+  | nil => cases h
+  | cons a r ih =>
+    cases a with
+    | none => rfl
+    | some x =>
+      have : none ∈ r := by simpa using h
+      simp [optAll, ih this]
+
+omit [DecidableEq κ] in
+theorem enum_mem {α : Type} (a : Nat) (l : List α) (n : Nat) (hn : n < l.length) :
+    ∃ x, (a + n, x) ∈ enum a l := by
+  induction l generalizing a n with
+  | nil => simp at hn
+  | cons y r ih =>
+    cases n with
+    | zero => exact ⟨y, by simp [enum]⟩
+    | succ k =>
+      obtain ⟨x, hx⟩ := ih (a + 1) k (by simpa using hn)
+      refine ⟨x, ?_⟩
+      simp only [enum, List.mem_cons]
+      right
+      have e : a + (k + 1) = a + 1 + k := by omega
+      rw [e]; exact hx
+
+/-- a body copy that does not deliver (it failed, or never completed) leaves the outputs incomplete:
+no table / no output column — for any inputs whose index maps have a row `n` -/
+theorem evalOuts_incomplete (s : Spec κ ν) (cur : Cur κ ν) (maps : List (Dict κ)) (order : List Nat)
+    (n : Nat) (hn : n < maps.length) (hnot : n ∉ order) (hout : s.outputs ≠ []) :
+    (evalOuts s cur maps order).complete = false := by
+  obtain ⟨m, hm⟩ := enum_mem 0 maps n hn
+  rw [Nat.zero_add] at hm
+  obtain ⟨o, os, ho⟩ : ∃ o os, s.outputs = o :: os := by
+    cases h : s.outputs with
+    | nil => exact absurd h hout
+    | cons o os => exact ⟨o, os, rfl⟩
+  unfold evalOuts
+  cases hdf : s.asDf with
+  | true =>
+    simp only [↓reduceIte, Outs.complete]
+    have hrow : rowAt s cur order n (wires cur m) = none := by
+      unfold rowAt
+      have : optAll (s.outputs.map fun o => (bodyOutAt s cur order n (wires cur m) o).map (s.colmap o, ·)) = none := by
+        rw [ho]; simp [bodyOutAt, hnot, optAll]
+      rw [this]
+      cases optAll ((s.iterOn ++ s.zipOn).map fun k => (loopedCell (wires cur m) k).map (k, ·)) <;> rfl
+    rw [optAll_none_of_mem]
+    · rfl
+    · rw [List.mem_map]
+      exact ⟨(n, m), hm, hrow⟩
+  | false =>
+    simp only [Bool.false_eq_true, ↓reduceIte, Outs.complete]
+    rw [Bool.eq_false_iff]
+    intro hall
+    rw [List.all_eq_true] at hall
+    have hmem : (s.colmap o, optAll ((enum 0 maps).map fun nm => bodyOutAt s cur order nm.1 (wires cur nm.2) o))
+        ∈ (loopedInputs s).map (fun k => (k, optAll (maps.map fun m => loopedCell (wires cur m) k)))
+          ++ s.outputs.map (fun o => (s.colmap o,
+              optAll ((enum 0 maps).map fun nm => bodyOutAt s cur order nm.1 (wires cur nm.2) o))) := by
+      apply List.mem_append_right
+      rw [List.mem_map]
+      exact ⟨o, by simp [ho], rfl⟩
+    have := hall _ hmem
+    rw [optAll_none_of_mem] at this
+    · simp at this
+    · rw [List.mem_map]
+      exact ⟨(n, m), hm, by simp [bodyOutAt, hnot]⟩
+
+
+variable [DecidableEq ν]
+
+/-- a cache-missing run on good inputs in which body copy `n` does not deliver: the sub-graph is
+built, the run ends with `FailedChildError`, the outputs are incomplete, and (with the failure clearing
+the input cache) nothing is cached -/
+theorem run_fail (s : Spec κ ν) (st : St κ ν) (cur : Cur κ ν) (order : List Nat) (v : Valid s)
+    (g : Good s cur) (hmiss : isHit s st cur = false) (n : Nat) (hn : n < (combos s cur).length)
+    (hnot : n ∉ order) (hout : s.outputs ≠ []) :
+    run s st cur order =
+      ({ children := build s (refMaps (lensOfCur cur s.iterOn) (lensOfCur cur s.zipOn)) st.children,
+         outs := evalOuts s cur (refMaps (lensOfCur cur s.iterOn) (lensOfCur cur s.zipOn)) order,
+         cached := if s.useCache && !s.clearOnFail then some cur else none,
+         maps := refMaps (lensOfCur cur s.iterOn) (lensOfCur cur s.zipOn) }, .failedChild) := by
+  have hinc := evalOuts_incomplete s cur _ order n (by rw [← length_combos]; exact hn) hnot hout
+  unfold run
+  rw [hmiss, ready_of_good s cur g]
+  simp only [↓reduceIte, Bool.false_eq_true, indexMapsOf_good s cur v g, not_stranded s cur v g,
+    listsClash_false s v, Bool.and_false, hinc, Bool.false_or]
+
+/-- with failures clearing the cache the invariant survives ANY run — also one in which body copies
+fail or never complete -/
+theorem run_inv_any (s : Spec κ ν) (st : St κ ν) (cur : Cur κ ν) (order : List Nat) (v : Valid s)
+    (hcl : s.clearOnFail = true) (hout : s.outputs ≠ []) (inv : Inv s st) : Inv s (run s st cur order).1 := by
+  by_cases hc : Good s cur → Covers order (combos s cur).length
+  · exact run_inv s st cur order v hc inv
+  · have g : Good s cur := Classical.byContradiction fun hg => hc (fun g => absurd g hg)
+    have hnc : ¬ Covers order (combos s cur).length := fun h => hc (fun _ => h)
+    by_cases hhit : isHit s st cur = true
+    · simp only [run, hhit, ↓reduceIte]; exact inv
+    · unfold Covers at hnc
+      have ⟨n, hn⟩ : ∃ n, ¬ (n < (combos s cur).length → n ∈ order) :=
+        Classical.byContradiction fun h => hnc fun n => Classical.byContradiction fun hn => h ⟨n, hn⟩
+      have hlt : n < (combos s cur).length := Classical.byContradiction fun h => hn (fun h' => absurd h' h)
+      have hnot : n ∉ order := fun h => hn (fun _ => h)
+      rw [run_fail s st cur order v g (by simpa using hhit) n hlt hnot hout]
+      refine ⟨inputs_build s _ _ inv.inputs, ?_⟩
+      intro c _ hcache _
+      simp [hcl] at hcache
+
+theorem evs_inv_any (s : Spec κ ν) (st : St κ ν) (hs : List (Ev κ ν)) (v : Valid s)
+    (hcl : s.clearOnFail = true) (hout : s.outputs ≠ []) (inv : Inv s st) : Inv s (evs s st hs) := by
+  induction hs generalizing st with
+  | nil => exact inv
+  | cons e r ih =>
+    cases e with
+    | run cur order => simp only [evs]; exact ih _ (run_inv_any s st cur order v hcl hout inv)
+    | rrun cur order =>
+      simp only [evs, runByValue, reload]; exact ih _ (run_inv_any s st cur order v hcl hout inv)
+    | reload => simp only [evs, reload]; exact ih _ inv
+    | snap cur =>
+      simp only [evs]
+      apply ih
+      cases hm : midRun s st cur with
+      | none => exact inv
+      | some st' => exact midRun_inv s st st' cur inv hm
+
+end Fail
+
 end PwVerif.ForLoop
